@@ -235,7 +235,7 @@ def run_one(case, slow=1.0):
         elif o.startswith("q="):
             args += ["-q", dec(o[2:])]
         elif o.startswith("tb="):
-            args += ["--tiebreak", dec(o[3:])]
+            args += ["--tiebreak=" + dec(o[3:])]      # one word: a list that starts with `-length` must not be read as a flag
         elif o == "sort":
             args.remove("--no-sort")
         elif o.startswith("d="):
